@@ -147,6 +147,31 @@ def gen_oset_script(rng, ty):
         return s.encode('utf-8').hex() or '-'
 
     ops = []
+    if ty == 'n' and rng.random() < 0.12:
+        # large sets around powers of two, then small / large batches in every order, below, inside and above the current range
+        size = rng.choice([63, 64, 65, 127, 128, 129, 130, 200, 255, 256, 257, 300, 511, 512, 640])
+        base = list(range(10, 10 + 3 * size, 3))[:size]
+        if rng.random() < 0.5:
+            rng.shuffle(base)
+        ops.append('f:' + ','.join(map(str, base)))
+        hi = 10 + 3 * size
+        for _ in range(rng.randint(1, 5)):
+            k = rng.choice([1, 2, 2, 3, 4, size // 64 or 1, size // 64 + 1, 9])
+            pool = rng.choice([list(range(hi + 1, hi + 40)), list(range(0, 10)), list(range(10, hi)), list(range(0, hi + 40))])
+            batch = [rng.choice(pool) for _ in range(k)]
+            order = rng.random()
+            if order < 0.4:
+                batch.sort(reverse=True)
+            elif order < 0.6:
+                batch.sort()
+            r = rng.random()
+            if r < 0.6:
+                ops.append('e:' + ','.join(map(str, batch)))
+            else:
+                ops += ['i:%d' % b for b in batch]
+            ops.append('c:%d' % rng.choice(batch))
+            ops.append('c:%d' % rng.choice(pool))
+        return ';'.join(ops)
     for _ in range(rng.randint(0, 40 if rng.random() < 0.3 else 10)):
         r = rng.random()
         if r < 0.35:
@@ -291,6 +316,12 @@ def check_C07(ctx):
     big.append('start A\nstruct A\nterminal T {}\n' + '// padding\n' * ctx.n(500, 5000))
     for b in big:
         cases.append(('big', b))
+    # well-formed but unusual: rule sets that stress the FIRST fixpoint (long unit chains with feedback, many passes per rule),
+    # and grammars with more than ten / a hundred of everything
+    for _ in range(ctx.n(150, 4000)):
+        cases.append(('first-stress', gen.render(ctx.rng, gen.gen_first_stress(ctx.rng), 'plain')))
+    for _ in range(ctx.n(6, 100)):
+        cases.append(('large', gen.render(ctx.rng, gen.gen_grammar(ctx.rng, max_nts=ctx.rng.choice([12, 25, 45]), max_terms=ctx.rng.choice([12, 30]), min_sizes=True), 'plain')))
     # naming/grammar-level malformations: files with injected static-validation violations
     for _ in range(ctx.n(150, 6000)):
         g = gen.gen_grammar(ctx.rng, max_nts=5)
@@ -396,6 +427,20 @@ def check_C09(ctx):
         for _ in range(ctx.rng.randint(1, 2)):
             items = gen.mutate_token_items(ctx.rng, items)
         cases.append(('token-mutated', gen.layout(ctx.rng, items, ctx.rng.choice(['plain', 'random']))))
+    # files that stop too early, with every kind of text after the last token: nothing, ASCII / Unicode whitespace, a comment
+    # without a final newline whose last character is ASCII or multi-byte (the error span is the END of the source)
+    tails = ['', ' ', '\n', '\r\n', '\t', '\u00a0', '\u2028', '\u3000', '\u1680 ', ' \u2003', '// c', '// more fields\u2026', '// \u00e9', '// \U0001F600',
+             '//', '// x\n', '// \u8868\n\u3000', '\n// \u00e9\u00e9']
+    for _ in range(ctx.n(120, 4000)):
+        g = gen.gen_grammar(ctx.rng, max_nts=3)
+        items = gen.render_tokens(g)
+        k = ctx.rng.randrange(len(items))
+        part = list(items[k][:ctx.rng.randint(1, max(1, len(items[k]) - 1))])
+        while part and part[-1] == '\n':
+            part.pop()
+        body = gen.layout(ctx.rng, list(items[:k]) + ([part] if part else []), ctx.rng.choice(['plain', 'random']))
+        tail = ctx.rng.choice(tails) if ctx.rng.random() < 0.8 else '// ' + gen.tricky_text(ctx.rng, 1, 6)
+        cases.append(('truncated+tail', body.rstrip('\n') + (' ' if tail.startswith('//') else '') + tail))
     srcs = [s for _, s in cases]
     r, m = run_gen_both(ctx, srcs)
     kinds = {}
